@@ -98,13 +98,27 @@ def run_gap_traceback(chk):
     if len(outer) != 1 or loop_nodes(node).index(outer[0]) != 0:
         chk.undecided.append(f"{fn}: expected the loop over the path to be the first loop")
         return
+    # the loop state is recognised by how it is initialised, not by what the locals are called
+    import ast as _ast
+    inits = {}
+    for st in node.body:
+        if isinstance(st, _ast.Assign) and len(st.targets) == 1 and isinstance(st.targets[0], _ast.Name):
+            try:
+                inits.setdefault(repr(_ast.literal_eval(st.value)), []).append(st.targets[0].id)
+            except Exception:
+                pass
+    try:
+        (V_CONS,), (V_STARTS, V_ENDS), (V_GV,) = inits["[False, False]"], inits["[None, None]"], inits["[[], []]"]
+    except (KeyError, ValueError):
+        chk.undecided.append(f"{fn}: loop state not recognised (expected [False, False], two [None, None], [[], []] initialisers)")
+        return
     n = z3.Int("n")
     path = PathSeq(n)
     c, k1, k2 = z3.Ints("c k1 k2")
     pre = [n >= 1]
 
     def gv_of(env, d):
-        g = env["gap_vectors"][d]
+        g = env[V_GV][d]
         if isinstance(g, SymSeq):
             return g.arr, g.length
         if isinstance(g, list) and not g:
@@ -119,10 +133,10 @@ def run_gap_traceback(chk):
         parts = []
         for d in (0, 1):
             arr, ln = gv_of(env, d)
-            consuming = _bool(env["consuming"][d])
+            consuming = _bool(env[V_CONS][d])
             K = env["__K"][d]
-            s_none, s_val = _opt(env["starts"][d])
-            e_none, e_val = _opt(env["ends"][d])
+            s_none, s_val = _opt(env[V_STARTS][d])
+            e_none, e_val = _opt(env[V_ENDS][d])
             parts += [
                 ln >= 0, consuming == (ln % 2 == 1),
                 z3.Implies(j > 0, consuming == path.cons(d, j - 1)),
@@ -146,12 +160,12 @@ def run_gap_traceback(chk):
     def ghost_update(env, j):
         env["__K"] = [z3.Store(env["__K"][d], j, gv_of(env, d)[1] - 1) for d in (0, 1)]
 
-    spec = dict(invariant=inv, modifies=["consuming", "starts", "ends", "gap_vectors", "__K"], bind_last=True,
+    spec = dict(invariant=inv, modifies=[V_CONS, V_STARTS, V_ENDS, V_GV, "__K"], bind_last=True,
                 ghost_init=ghost_init, ghost_update=ghost_update,
-                havoc={"consuming": lambda old: [z3.FreshConst(B, "consuming0"), z3.FreshConst(B, "consuming1")],
-                       "starts": lambda old: [OptV(z3.FreshConst(B, "s_none"), z3.FreshConst(I, "s_val")) for _ in (0, 1)],
-                       "ends": lambda old: [OptV(z3.FreshConst(B, "e_none"), z3.FreshConst(I, "e_val")) for _ in (0, 1)],
-                       "gap_vectors": lambda old: [SymSeq.fresh("gv0", I), SymSeq.fresh("gv1", I)],
+                havoc={V_CONS: lambda old: [z3.FreshConst(B, "consuming0"), z3.FreshConst(B, "consuming1")],
+                       V_STARTS: lambda old: [OptV(z3.FreshConst(B, "s_none"), z3.FreshConst(I, "s_val")) for _ in (0, 1)],
+                       V_ENDS: lambda old: [OptV(z3.FreshConst(B, "e_none"), z3.FreshConst(I, "e_val")) for _ in (0, 1)],
+                       V_GV: lambda old: [SymSeq.fresh("gv0", I), SymSeq.fresh("gv1", I)],
                        "__K": lambda old: [z3.FreshConst(z3.ArraySort(I, I), "K0"), z3.FreshConst(z3.ArraySort(I, I), "K1")]})
     hooks = TBHooks(funcs, {(name, 0): spec})
     eng = Engine(funcs, hooks, prune_logic=None, prune_ms=300)
